@@ -23,7 +23,9 @@ Hh = Harness("C08", ["OQ.Base.CaseEq", "OQ.Circ.GateAst", "OQ.Circ.GateAstCases"
                      "OQ.Circ.Constructions", "OQ.Circ.ConstructionsCases"],
              "kinds: inverse (inverse(), inverse().inverse(), c + c.inverse(); circuits of self-adjoint, parametric "
              "(dyadic or symbolic parameters), wrapped (controlled/dagger/power/exp chains) and custom gates on 1-5 "
-             "qubits, unordered qubit tuples, idle top qubits), controlled (every k in 0..n and some k > n), apply "
+             "qubits, unordered qubit tuples, idle top qubits), controlled (every k in 0..n and some k > n; -collide = several "
+             "different wrapped gates whose name/params/arity coincide - c-X with c-Z, exp^X with exp^Z, powers of those - in one "
+             "circuit; -twice = controlled(a).controlled(b), model chained from the original circuit), apply "
              "(apply_gate_to_qubits on lists/tuples/ranges/sets with duplicates, factories with 0-3 parameters, rows as "
              "tuples, ready gates; -assert = wrong number of rows), layer (create_layer_of_gates), ancilla (0-3 ancillas), add "
              "(circuit + circuit of different widths); "
@@ -58,6 +60,20 @@ PARAM = ["RX", "RY", "RZ", "PHASE", "GPi", "U3", "CPHASE", "XX", "cp", "c2"]
 MODS = [["c", 1], ["c", 1], ["c", 2], ["d"], ["d"], ["pi", 2], ["pi", 3], ["pi", -1], ["pi", 0], ["pf", 0.5], ["pf", 0.25],
         ["pf", 1.5], ["e"]]
 EXACT_MODS = [["c", 1], ["d"], ["d"], ["pi", 2], ["pi", 3], ["pi", 0]]
+
+# families of different gates that share (name, params, num_qubits): (arity, gates, exact matrices)
+def _g(b, *ch):
+    return dict(b=[b], ch=[list(m) for m in ch])
+COLLIDE = [
+    (2, [_g(b, ["c", 1]) for b in ("X", "Y", "Z", "S", "SX", "cg", "I")], True),
+    (3, [_g(b, ["c", 1]) for b in ("CNOT", "CZ", "SWAP", "ISWAP")] + [_g(b, ["c", 2]) for b in ("X", "Z", "S")], True),
+    (2, [_g(b, ["c", 1], ["pi", 2]) for b in ("X", "S", "SX", "cg")] + [_g(b, ["pi", 2], ["c", 1]) for b in ("Z", "Y")], True),
+    (2, [_g(b, ["d"], ["c", 1]) for b in ("S", "T", "SX", "cg")] + [_g("X", ["c", 1])], False),
+    (1, [_g(b, ["e"]) for b in ("X", "Y", "Z", "S", "cg")], False),
+    (1, [_g(b, ["e"], ["pi", 2]) for b in ("X", "Z", "S")], False),
+    (1, [_g(b, ["e"], ["pf", 0.5]) for b in ("X", "Z")], False),
+    (2, [_g(b, ["e"], ["c", 1]) for b in ("X", "Z", "S")] + [_g("Y", ["c", 1])], False),
+]
 
 
 def pval(p):
@@ -398,6 +414,33 @@ def gen(rng, tier):
         n = build_circuit(c).n_qubits
         for k in list(range(n + 1)) + [n + 1] + ([n + 3] if rng.random() < 0.3 else []):
             yield dict(kind="controlled", c=c, k=k, sem=exact and k <= n and n <= 3)
+    # gates whose `name` does not identify the wrapped gate (every ControlledGate is "Control", every Exponential
+    # "Exponential", a Power of those "Control^e"/"Exponential^e") with equal parameters and arity, several
+    # different ones in one circuit, in different orders and positions; and controlled(a).controlled(b)
+    for i in range(24 * scale):
+        fam = rng.choice(COLLIDE)
+        n = rng.randint(fam[0], fam[0] + 2)
+        picks = rng.sample(fam[1], rng.randint(2, min(4, len(fam[1]))))
+        if rng.random() < 0.5:
+            picks.insert(rng.randint(0, len(picks)), rng.choice(picks))        # a repeated gate among the different ones
+        if rng.random() < 0.4:
+            picks.insert(rng.randint(0, len(picks)), dict(b=[rng.choice(["T", "H", "SX"])], ch=[]))
+        ops = [dict(g=g, q=rng.sample(range(n), gate_arity(g))) for g in picks]
+        c = dict(n=n if rng.random() < 0.6 else None, ops=ops)
+        w = build_circuit(c).n_qubits
+        yield dict(kind="controlled", c=c, k=rng.randint(0, w), sem=fam[2] and w <= 3, collide=True)
+    for i in range(24 * scale):
+        if rng.random() < 0.5:
+            # plain different non-parametric gates of one arity: they collide after the first controlled()
+            n = rng.randint(2, 4)
+            names = rng.sample(["X", "Y", "Z", "H", "S", "T", "SX", "cg"], 3) if rng.random() < 0.6 else rng.sample(["CNOT", "CZ", "SWAP", "ISWAP"], 3)
+            ops = [dict(g=dict(b=[nm], ch=[]), q=rng.sample(range(n), BASES[nm][1])) for nm in names]
+            c = dict(n=n, ops=ops)
+        else:
+            c = rand_circuit(rng, 3, exact=rng.random() < 0.5, min_ops=2, max_ops=4)
+        w = build_circuit(c).n_qubits
+        k = rng.randint(0, w)
+        yield dict(kind="controlled", c=c, k=k, k2=rng.randint(0, max(w, k) + 1), sem=False, collide=True)
     # apply_gate_to_qubits
     for i in range(120 * scale):
         c = rand_circuit(rng, 4, max_ops=3, symbolic=rng.random() < 0.1)
@@ -502,6 +545,40 @@ def shape_oracle(c, res, distinct, fac_py, rows):
     return True, ""
 
 
+def controlled_oracle(c, cc, k):
+    """cc = c.controlled(k)?  width, tuples, and (when the matrices are available) every entry of the unitary:
+    identity unless bit k is set on both sides, then the original entry at the indices with bit k removed.
+    -> (ok, msg, '-num' | '-nonum' | '')"""
+    n = c.n_qubits
+    m = max(n, k)
+    if cc.n_qubits != m + 1:
+        return False, f"controlled({k}) of a {n}-qubit circuit has width {cc.n_qubits}, expected {m + 1}", ""
+    if len(cc.operations) != len(c.operations):
+        return False, "number of operations changed", ""
+    for a, b in zip(c.operations, cc.operations):
+        want = (k,) + tuple(i + 1 if i >= k else i for i in a.qubit_indices)
+        if tuple(b.qubit_indices) != want or b.gate.num_qubits != a.gate.num_qubits + 1:
+            return False, f"{a} became {b}, expected qubits {want} and one more gate qubit", ""
+    u = ref_unitary(c.operations, m)
+    uc = ref_unitary(cc.operations, m + 1)
+    if u[0] != "ok" or uc[0] != "ok":
+        return True, "", "-nonum"
+    U, UC = u[1], uc[1]
+    pos = m - k                      # bit position of qubit k in an (m+1)-bit index
+    lowmask = (1 << pos) - 1
+    for x in range(2 ** (m + 1)):
+        for y in range(2 ** (m + 1)):
+            if (x >> pos) & 1 and (y >> pos) & 1:
+                xr = ((x >> (pos + 1)) << pos) | (x & lowmask)
+                yr = ((y >> (pos + 1)) << pos) | (y & lowmask)
+                want = U[xr, yr]
+            else:
+                want = 1.0 if x == y else 0.0
+            if abs(UC[x, y] - want) > TOL:
+                return False, f"controlled({k}) of {c}: entry [{x}][{y}] is {UC[x, y]}, expected {want}", "-num"
+    return True, "", "-num"
+
+
 def run_case(inp):
     kind = inp["kind"]
     if kind == "inverse":
@@ -564,48 +641,26 @@ def run_case(inp):
         cc = r[1]
         ec = enc_circ(c)
         chk = f"controlled_eqb {cnat(k)} {ec} {ob}"
+        label = "controlled" + ("-collide" if inp.get("collide") else "")
         suffix = "" if k <= c.n_qubits else "-beyond"
         if inp.get("sem") and sem_ok(c) and sem_ok(cc) and cc.n_qubits <= 4:
             chk += f" && {sem_term(base_table([c]), f'controlled_circuit cfree {cnat(k)} {ec}', cc)}"
             suffix += "-sem"
-        n = c.n_qubits
-        m = max(n, k)
-        ok, msg = True, ""
-        if cc.n_qubits != m + 1:
-            ok, msg = False, f"controlled({k}) of a {n}-qubit circuit has width {cc.n_qubits}, expected {m + 1}"
-        elif len(cc.operations) != len(c.operations):
-            ok, msg = False, "number of operations changed"
-        else:
-            for a, b in zip(c.operations, cc.operations):
-                want = (k,) + tuple(i + 1 if i >= k else i for i in a.qubit_indices)
-                if tuple(b.qubit_indices) != want or b.gate.num_qubits != a.gate.num_qubits + 1:
-                    ok, msg = False, f"{a} became {b}, expected qubits {want} and one more gate qubit"
-                    break
+        ok, msg, num = controlled_oracle(c, cc, k)
         frac_dag = any(has_frac_power(op.gate) and any(type(w) is Dagger for w in classes(op.gate)) for op in c.operations)
-        if ok:
-            u = ref_unitary(c.operations, m)
-            uc = ref_unitary(cc.operations, m + 1)
-            if u[0] == "ok" and uc[0] == "ok":
-                suffix += "-num"
-                U, UC = u[1], uc[1]
-                pos = m - k                      # bit position of qubit k in an (m+1)-bit index
-                lowmask = (1 << pos) - 1
-                for x in range(2 ** (m + 1)):
-                    for y in range(2 ** (m + 1)):
-                        if (x >> pos) & 1 and (y >> pos) & 1:
-                            xr = ((x >> (pos + 1)) << pos) | (x & lowmask)
-                            yr = ((y >> (pos + 1)) << pos) | (y & lowmask)
-                            want = U[xr, yr]
-                        else:
-                            want = 1.0 if x == y else 0.0
-                        if abs(UC[x, y] - want) > TOL:
-                            ok, msg = False, (f"controlled({k}) of {c}: entry [{x}][{y}] is {UC[x, y]}, expected {want}")
-                            break
-                    if not ok:
-                        break
-            else:
-                suffix += "-nonum"
-        return dict(chk=chk, oracle_ok=ok, oracle_msg=msg, sig="F8" if frac_dag else None, kind="controlled" + suffix,
+        if inp.get("k2") is not None:
+            # controlled(k).controlled(k2): the model is chained from the original circuit
+            k2 = inp["k2"]
+            r2 = outcome(lambda: cc.controlled(k2))
+            ob2 = enc_obs(r2)
+            if r2[0] != "ok" or ob2 is None:
+                return dict(chk="false", oracle_ok=False, oracle_msg=f"controlled({k}).controlled({k2}) raised {r2[1]}", kind="controlled-crash")
+            chk += f" && controlled2_eqb {cnat(k)} {cnat(k2)} {ec} {ob2}"
+            label += "-twice"
+            if ok:
+                ok, msg, num2 = controlled_oracle(cc, r2[1], k2)
+                num = num if num2 == "-num" else num2
+        return dict(chk=chk, oracle_ok=ok, oracle_msg=msg, sig="F8" if frac_dag else None, kind=label + suffix + num,
                     nontrivial=interesting(c))
     if kind in ("apply", "layer"):
         fac_py, fac_coq = factory(inp["fac"])
